@@ -243,6 +243,13 @@ func (f *Frame) nilCheck(p Ptr, kind, pos string) {
 func (f *Frame) unop(x *ssa.UnOp) {
 	switch x.Op {
 	case token.MUL: // load
+		if g, ok := x.X.(*ssa.Global); ok {
+			if st, ok := g.Type().Underlying().(*types.Pointer).Elem().Underlying().(*types.Struct); ok && st.NumFields() == 0 {
+				// a stateless package-level value such as encoding/binary.BigEndian
+				f.vals[x] = StructV{Ty: g.Type().Underlying().(*types.Pointer).Elem()}
+				return
+			}
+		}
 		p := f.toPtr(f.val(x.X), x.X.Type())
 		f.nilCheck(p, "nil-deref", f.pos(x))
 		f.vals[x] = f.load(p)
